@@ -100,7 +100,7 @@ impl<'a> U<'a> {
 // decoders (mirror gen::message clause by clause)
 
 const CHARS: &[&str] = &["A", "b", "7", " ", "_", "D", "L", "T", "\u{1}", "\u{7f}", "é", "ß", "€", "日", "𝄞", "~", "/", "\"", "<", "&"];
-const POOL: &[&str] = &["", "A", "APP", "APP1", "CTX", "ECU", "é", "€a", "TEST", "Ab7 "];
+const POOL: &[&str] = &["", "A", "APP", "APP1", "CTX", "ECU", "é", "€a", "TEST", "Ab7 ", "NONE", "APP "];
 
 fn short_text(u: &mut U, max: usize) -> String {
     let n = u.below(max.min(12) + 1);
@@ -404,12 +404,20 @@ fn filter(u: &mut U) -> c04::Filter {
     let (app_ids, ecu_ids, context_ids) = (filter_ids(u), filter_ids(u), filter_ids(u));
     let set_len = |l: &Option<Vec<String>>| l.as_ref().map(|v| v.iter().collect::<std::collections::BTreeSet<_>>().len() as i64).unwrap_or(0);
     let (mut a, mut c) = (set_len(&app_ids) + u.below(3) as i64 - 1, set_len(&context_ids) + u.below(3) as i64 - 1);
-    match u.below(6) {
+    match u.below(9) {
         3 => a = 0,
         4 => c = -5,
         5 => {
             a = 1000;
             c = i64::MAX
+        }
+        6 => {
+            a = i64::MIN;
+            c = i64::MIN + 1
+        }
+        7 => {
+            a = i64::MAX;
+            c = i64::MIN
         }
         _ => {}
     }
